@@ -54,6 +54,7 @@ pub enum Class {
     AggPlainThenBoxDropped,
     BlockYieldsOtherBox,
     ShadowedBox,
+    ListBuiltInBlock,
     // ---- known findings on the pinned tree (rate per dsp call in `rate()`)
     LocalCaptureBound,
     ReturnedBound,
@@ -89,7 +90,7 @@ pub enum Class {
     EscapingClosureCapturesLetBoundBox,
 }
 
-pub const STABLE: [Class; 33] = [
+pub const STABLE: [Class; 34] = [
     Class::LocalNoCapture,
     Class::InplaceCapturing,
     Class::GlobalClosureCalled,
@@ -123,6 +124,7 @@ pub const STABLE: [Class; 33] = [
     Class::AggPlainThenBoxDropped,
     Class::BlockYieldsOtherBox,
     Class::ShadowedBox,
+    Class::ListBuiltInBlock,
 ];
 /// Constructs that release a heap object twice (logged `invalid HeapIdx`) or use it after release
 /// (`BoxLoad: invalid heap index`) on the pinned tree. One scenario in twelve contains exactly one
@@ -196,6 +198,7 @@ impl Class {
             Class::BlockYieldsOtherBox => "block-binding-a-box-and-yielding-another-box",
             Class::HelperYieldsOtherBox => "helper-binding-a-box-and-returning-another-box",
             Class::ShadowedBox => "let-bound-box-shadowed-by-another-box",
+            Class::ListBuiltInBlock => "list-built-from-let-bound-cells-inside-a-block",
             Class::ClosureCapturingClosure => "local-closure-capturing-a-local-closure",
             Class::ClosureCapturingBox => "local-closure-capturing-a-local-box",
             Class::ReturnedClosureCapturingBox => "closure-returned-from-callee-capturing-a-boxed-argument",
@@ -421,6 +424,11 @@ impl Inst {
             Class::EscapingClosureCapturesLetBoundBox => (
                 format!("type rec Zl{i} = Zn{i} | Zc{i}(float, Zl{i})\n"),
                 format!("  let zf{i} = {{\n    let l = Zc{i}(now + {k}, Zn{i})\n    | | match l {{ Zn{i} => 0.0, Zc{i}(h, t) => h }}\n  }};\n  let r{i} = zf{i}();\n"),
+                format!("r{i}"),
+            ),
+            Class::ListBuiltInBlock => (
+                format!("type rec Ul{i} = Un{i} | Uc{i}(float, Ul{i})\n"),
+                format!("  let ub{i} = {{\n    let a = Uc{i}({k}, Un{i})\n    let b = Uc{i}(2.0, a)\n    Uc{i}(now, b)\n  }};\n  let r{i} = now;\n"),
                 format!("r{i}"),
             ),
             Class::ShadowedBox => (
@@ -720,6 +728,10 @@ pub struct C12Scenario {
     pub swaps: Vec<u64>,
     /// shipped fixture instead of generated constructs: (path relative to the repo, class label, rate)
     pub fixture: Option<(String, String, (u64, u64))>,
+    /// declare, for every recursive type of the program, an unrelated recursive type of another
+    /// layout whose name ends in that type's name, and use it first (dsp starts by binding one value of it)
+    #[serde(default)]
+    pub decoys: bool,
 }
 
 impl C12Scenario {
@@ -754,7 +766,25 @@ impl C12Scenario {
             body.push_str(&b);
             results.push(r);
         }
-        format!("{defs}fn dsp(){{\n{body}  {}\n}}\n", results.join(" + "))
+        let mut prelude = String::new();
+        let mut decoy_uses = String::new();
+        if self.decoys {
+            let mut names = vec![];
+            for line in defs.lines() {
+                if let Some(rest) = line.strip_prefix("type rec ") {
+                    if let Some(name) = rest.split(' ').next() {
+                        if !names.contains(&name.to_string()) {
+                            names.push(name.to_string());
+                        }
+                    }
+                }
+            }
+            for n in names {
+                prelude.push_str(&format!("type rec A{n} = AE{n} | AC{n}(float, float, A{n})\n"));
+                decoy_uses.push_str(&format!("  let azv{n} = AC{n}(1.0, 2.0, AE{n});\n"));
+            }
+        }
+        format!("{prelude}{defs}fn dsp(){{\n{decoy_uses}{body}  {}\n}}\n", results.join(" + "))
     }
     pub fn needs_scheduler(&self) -> bool {
         self.fixture.is_some() || self.insts.iter().any(|i| i.class.needs_scheduler())
@@ -798,6 +828,7 @@ pub fn run(sc: &C12Scenario) -> RunResult {
         with_scheduler: sc.needs_scheduler(),
         sample_rate: 48000,
         self_init_0: false,
+        with_sampler: false,
     };
     let path = sc
         .fixture
@@ -1019,6 +1050,7 @@ pub fn gen_c12(seed: u64) -> C12Scenario {
             n,
             swaps: vec![],
             fixture: Some((p.to_string(), l.to_string(), rate)),
+            decoys: false,
         };
     }
     if root.sub("uaf").chance(1, 12) {
@@ -1030,6 +1062,7 @@ pub fn gen_c12(seed: u64) -> C12Scenario {
             n,
             swaps: vec![],
             fixture: None,
+            decoys: false,
         };
     }
     // swarm: only stable classes (any growth is new), only leaky, or mixed
@@ -1081,6 +1114,9 @@ pub fn gen_c12(seed: u64) -> C12Scenario {
         }
         swaps.sort();
     }
+    // (the decoy values are heap objects made by `main`: not together with the selected-function
+    // construct, which must stay the first object `main` creates, see above)
+    let decoys = root.sub("decoy-types").chance(1, 4) && !insts.iter().any(|i| i.class == Class::GlobalSelectedFn);
     C12Scenario {
         prop: "C12".into(),
         seed,
@@ -1088,6 +1124,7 @@ pub fn gen_c12(seed: u64) -> C12Scenario {
         n,
         swaps,
         fixture: None,
+        decoys,
     }
 }
 
